@@ -170,6 +170,53 @@ def run(ck):
     ck.require_fact("K1.rock-read-needs-slice", ck.flow(rd), ev_call({"DiskFile::read"}), no_slice, False, "theFile->read()", why="(a read beyond the entry's last slice would be issued)")
     ck.require_response("K1.rock-read-needs-slice", rd, no_slice, True, ev_call("Rock::IoState::callReaderBack"), "callReaderBack()", term_kinds=("IfStmt",),
                         why="(a read past the last slice would neither be issued nor answered)")
-    ck.assume("version mixing under concurrent replacement (slot reuse between reads), the slice chains of rock/shared memory (C55/C57) and ufs/aufs/diskd I/O completion are not analysed")
+    # ------------------------------------------------------------------ U: a failed ufs-family disk write must end the swapout with an error
+    ck.rule("U1 ERROR DISCIPLINE (ufs/aufs/diskd swap-out): Fs::Ufs::UFSStoreState::closeCompleted reports DISK_OK only with theFile->error() false, and "
+            "UFSStoreState::writeCompleted either tests the error status it is handed, or every DiskFile implementation used with it (BlockingFile, DiskThreadsDiskFile, "
+            "DiskdFile) hands ioRequestor->writeCompleted() a non-OK status only after recording the failure in the member its error() reports (SIBLING: all three agree); "
+            "storeSwapOutFileClosed marks the entry SWAPOUT_DONE only with errflag false (C16 U1). Otherwise a failed final write (ENOSPC/EFBIG) leaves a truncated file "
+            "that is later served as a complete hit")
+    dio = ck.facts(["src/fs/ufs/UFSStoreState.cc", "src/DiskIO/Blocking/BlockingFile.cc", "src/DiskIO/DiskThreads/DiskThreadsDiskFile.cc",
+                    "src/DiskIO/DiskDaemon/DiskdFile.cc"], whole=False)
+    US = "Fs::Ufs::UFSStoreState::"
+    cc = dio.fn(US + "closeCompleted")
+    ferr = E.M(lambda t: E.strip(t).get("k") == "call" and E.strip(t).get("f") == "DiskFile::error", "theFile->error()")
+    ok_code = dio.enum_with("DISK_OK")["DISK_OK"] if False else 0
+    ck.require_fact("U1.close-status", ck.flow(cc), ev_call(US + "doCloseCallback", arg={0: E.m_const(0)}), ferr, False, "doCloseCallback(DISK_OK)",
+                    why="(the swapout would be reported successful although the file object saw an error)")
+    wc = dio.fn(US + "writeCompleted")
+    p0 = wc.params[0].get("d") if wc.params else None
+    consumer_tests = bool(p0) and any(p0 in E.mentions(b["term"]["c"]) for b in wc.blocks.values() if b.get("term") and b["term"].get("c") is not None)
+    ERRMEM = {"BlockingFile": "BlockingFile::error_", "DiskThreadsDiskFile": "DiskThreadsDiskFile::errorOccured", "DiskdFile": "DiskdFile::errorOccured"}
+    if consumer_tests:
+        ck.ok("U1.write-error-recorded", wc.where(), "UFSStoreState::writeCompleted branches on the status it is handed")
+    for cls, mem in sorted(ERRMEM.items()):
+        efs = [f for f in dio.fns(cls + "::error") if f.sig == ""]
+        ck.need(len(efs) == 1, "C10: %s::error() const not found" % cls)
+        ef = efs[0]
+        ck.need(any(mem in E.mentions(ev.get("x")) for b in ef.blocks.values() for ev in b["ev"] if ev.get("e") == "ret") or
+                any(b.get("term") and b["term"].get("c") is not None and mem in E.mentions(b["term"]["c"]) for b in ef.blocks.values()),
+                "C10: %s::error() no longer reports %s" % (cls, mem))
+        wd = dio.fn(cls + "::writeDone")
+        done = ev_call("IORequestor::writeCompleted")
+        rec = ev_assign(mem, E.m_const(1))
+        fl = ck.flow(wd, markers={"rec": rec}, track_markers=["rec"])
+        sites = ck.sites(fl, done, "ioRequestor->writeCompleted()", 1)
+        for st in sites:
+            a0 = E.strip(st.ev["x"])["a"][0]
+            if E.const(a0) == 0:
+                ck.ok("U1.write-error-recorded", st.where(), "%s::writeDone: reports DISK_OK" % cls)
+                continue
+            # a possibly non-OK status: recorded on this path, or the status expression is established zero, or the consumer tests it
+            zero = st.has(E.M(lambda t, a0=a0: E.key(t) == E.key(a0), "status"), False)
+            if st.env.get("#rec") == 1 or zero or consumer_tests:
+                ck.ok("U1.write-error-recorded", st.where(), "%s::writeDone: a failure status is handed over only after %s = true (or the consumer tests it)" % (cls, mem.split("::")[-1]))
+            else:
+                ck.violation("U1.write-error-recorded", "U1|%s::writeDone|status-dropped" % cls, st.where(),
+                             "%s::writeDone hands status `%s` to ioRequestor->writeCompleted() without recording the failure in %s, and UFSStoreState::writeCompleted "
+                             "ignores the status it receives: closeCompleted() then reports DISK_OK, the entry becomes SWAPOUT_DONE and the truncated file is served as a "
+                             "complete hit" % (cls, E.key(a0), mem.split("::")[-1]), fl.witness(st))
+
+    ck.assume("version mixing under concurrent replacement (slot reuse between reads), the slice chains of rock/shared memory (C55/C57) and ufs/aufs/diskd read completion are not analysed")
     ck.assume("offline_mode and collapsed forwarding are cut; CheckSwapMetaUrl cannot validate entries without known URIs and CheckSwapMetaKey skips private keys (both listed as guards)")
     ck.assume("the exception edge from UnpackHitSwapMeta() to readHeader's catch handler is not modelled: a throw leaves the normal path, which is the only path reaching the disk bytes' use")
